@@ -163,12 +163,8 @@ Definition tr_strength0 (s : st) : bool :=
 Definition prm3_eqb (a : nat * regt * nat) (n : nat) (rt : regt) (z : nat) : bool :=
   (fst (fst a) =? n) && regt_eqb (snd (fst a)) rt && (snd a =? z).
 
-Definition is_junk_res (r : mres) : bool :=
-  match r with
-  | MB b => b_junk b
-  | MT (TSame b) _ | MT (TInv b) _ | MT (TTikh _ _ b) _ => b_junk b
-  | MR (TSame b) | MR (TInv b) | MR (TTikh _ _ b) => b_junk b
-  end.
+Definition t_size (t : tcont) : nat :=
+  match t with TSame b | TInv b | TTikh _ _ b => b_size b end.
 
 Definition step_call (s : st) (n deg : nat) (rt : regt) (z : nat) (fwd : bool)
            (bd : bdarg) (lastsz : nat) : st * res mres :=
@@ -178,28 +174,29 @@ Definition step_call (s : st) (n deg : nat) (rt : regt) (z : nat) (fwd : bool)
       match bs s1 with
       | None => (s1, Raise EOther)                     (* unreachable *)
       | Some b =>
-          let fin (st' : st) (r : mres) :=
-            (* a too small matrix makes solve_triangular / dot raise ValueError *)
-            if is_junk_res r then (st', Raise EValue) else (st', Ret r) in
-          if fwd || regt_eqb rt RNonneg then fin s1 (MB (crop n b))
+          (* a matrix smaller than the data (possible after a failed save or
+             with a wrong-shape file) makes dot / solve_triangular / the
+             Tikhonov sum raise ValueError *)
+          let fin (st' : st) (r : mres) (sz : nat) :=
+            if sz <? n then (st', Raise EValue) else (st', Ret r) in
+          if fwd || regt_eqb rt RNonneg then fin s1 (MB (crop n b)) (b_size b)
           else
             let z' := match rt with RNone => 0 | _ => z end in
             if z' =? 0 then
               if tr_strength0 s1 then
-                match tr s1 with Some t => fin s1 (MT t n) | None => (s1, Raise EOther) end
+                match tr s1 with Some t => fin s1 (MT t n) (t_size t) | None => (s1, Raise EOther) end
               else
                 let t := if deg =? 3 then TInv b else TSame b in
                 let pn := match bs_prm s1 with Some (pn, _) => pn | None => n end in
-                fin (with_tr s1 (Some t) (Some (pn, rt, 0))) (MT t n)
+                fin (with_tr s1 (Some t) (Some (pn, rt, 0))) (MT t n) (b_size b)
             else
+              let recompute :=
+                if b_size b <? n then (s1, Raise EValue)   (* raises before _tr is assigned *)
+                else let t' := TTikh rt z' (crop n b) in
+                     (with_tr s1 (Some t') (Some (n, rt, z')), Ret (MR t')) in
               match tr s1, tr_prm s1 with
-              | Some t, Some p =>
-                  if prm3_eqb p n rt z' then fin s1 (MR t)
-                  else let t' := TTikh rt z' (crop n b) in
-                       fin (with_tr s1 (Some t') (Some (n, rt, z'))) (MR t')
-              | _, _ =>
-                  let t' := TTikh rt z' (crop n b) in
-                  fin (with_tr s1 (Some t') (Some (n, rt, z'))) (MR t')
+              | Some t, Some p => if prm3_eqb p n rt z' then fin s1 (MR t) n else recompute
+              | _, _ => recompute
               end
       end
   end.
